@@ -40,6 +40,17 @@ type Tag struct {
 	Name    string   `json:"name,omitempty"` // project name written in its dawn.toml
 	Reqs    []int    `json:"reqs,omitempty"` // indexes of required tags
 	Names   []string `json:"names,omitempty"`
+	// Also is a second version tag of the same project on the same commit (a release candidate promoted to a
+	// release without a new commit, say); same major as Version. It serves the same project file.
+	Also string `json:"also,omitempty"`
+}
+
+// top is the highest version tag on the commit.
+func (t Tag) top() string {
+	if t.Also != "" && semver.Compare(t.Also, t.Version) > 0 {
+		return t.Also
+	}
+	return t.Version
 }
 
 // Universe is a plain-data description of a repository.
@@ -76,8 +87,32 @@ func (u *Universe) Dir(i int) string {
 	return ProjDir(i)
 }
 
+// JoinPathMajor and SplitPathMajor spell and read project paths ("p" for majors v0 and v1, "p@vN" for the others).
+// They are written from the documented convention, not taken from the code under test.
+func JoinPathMajor(p, major string) string {
+	if major == "" || major == "v0" || major == "v1" {
+		return p
+	}
+	return p + "@" + major
+}
+
+func SplitPathMajor(p string) (string, string) {
+	for i := len(p) - 1; i >= 0 && p[i] != '/'; i-- {
+		if p[i] == '@' {
+			return p[:i], p[i+1:]
+		}
+	}
+	return p, ""
+}
+
+// CleanPath is the canonical spelling of a requirement path.
+func CleanPath(p string) string {
+	base, major := SplitPathMajor(p)
+	return JoinPathMajor(path.Clean(base), major)
+}
+
 func (u *Universe) PathOf(t Tag) string {
-	return project.JoinPathVersion(path.Join(u.Addr(), u.Dir(t.Proj)), semver.Major(t.Version))
+	return JoinPathMajor(path.Join(u.Addr(), u.Dir(t.Proj)), semver.Major(t.Version))
 }
 
 func (u *Universe) MV(i int) module.Version {
@@ -130,6 +165,13 @@ func NewRepo(u *Universe) *Repo {
 			ProjectPath: u.Dir(t.Proj),
 			RevisionID:  commitID(i),
 		})
+		if t.Also != "" {
+			r.versions = append(r.versions, &vcs.Version{
+				Version:     module.Version{Path: u.PathOf(t), Version: t.Also},
+				ProjectPath: u.Dir(t.Proj),
+				RevisionID:  commitID(i),
+			})
+		}
 	}
 	slices.SortStableFunc(r.versions, func(a, b *vcs.Version) int { return semver.Compare(a.Version.Version, b.Version.Version) })
 	return r
@@ -157,7 +199,7 @@ func (r *Repo) ResolveRef(ctx context.Context, ref string) (string, error) {
 		}
 	}
 	for i, t := range r.U.Tags {
-		if ref == strings.TrimPrefix(r.U.Dir(t.Proj)+"/"+t.Version, "/") {
+		if ref == strings.TrimPrefix(r.U.Dir(t.Proj)+"/"+t.Version, "/") || t.Also != "" && ref == strings.TrimPrefix(r.U.Dir(t.Proj)+"/"+t.Also, "/") {
 			return commitID(i), nil
 		}
 	}
@@ -275,7 +317,7 @@ func (u *Universe) RootConfig(reqs []RootReq) *project.Config {
 // tagIndex finds the tag of a module version (or -1; pseudo-versions have none).
 func (u *Universe) tagIndex(mv module.Version) int {
 	for i := range u.Tags {
-		if u.MV(i) == mv {
+		if u.MV(i) == mv || u.Tags[i].Also != "" && u.MV(i).Path == mv.Path && u.Tags[i].Also == mv.Version {
 			return i
 		}
 	}
@@ -367,7 +409,7 @@ func (u *Universe) RefVersion(p, ref string) (string, bool) {
 	if c < 0 {
 		return "", false
 	}
-	_, major := project.SplitPathVersion(p)
+	_, major := SplitPathMajor(p)
 	// the project's directory must exist at that commit, else nothing can be fetched
 	dir := u.dirOf(p)
 	exists := false
@@ -383,12 +425,12 @@ func (u *Universe) RefVersion(p, ref string) (string, bool) {
 		if u.MV(i).Path != p {
 			continue
 		}
-		// several tags never share a commit in this model: commit i carries exactly tag i
+		// a commit that carries two tags of the project is its higher version
 		if i == c {
-			return u.Tags[i].Version, true
+			return u.Tags[i].top(), true
 		}
 		rev := &revision{idx: c}
-		return module.PseudoVersion(major, u.Tags[i].Version, rev.When(), rev.PseudoID()), true
+		return module.PseudoVersion(major, u.Tags[i].top(), rev.When(), rev.PseudoID()), true
 	}
 	rev := &revision{idx: c}
 	return module.PseudoVersion(major, major, rev.When(), rev.PseudoID()), true
@@ -400,6 +442,9 @@ func (u *Universe) TaggedVersions(p string) []string {
 	for i := range u.Tags {
 		if mv := u.MV(i); mv.Path == p {
 			out = append(out, mv.Version)
+			if u.Tags[i].Also != "" {
+				out = append(out, u.Tags[i].Also)
+			}
 		}
 	}
 	sort.SliceStable(out, func(i, j int) bool { return semver.Compare(out[i], out[j]) < 0 })
@@ -428,6 +473,11 @@ var versionPool = map[string][]string{
 	"v1": {"v1.0.0", "v1.0.1", "v1.1.0", "v1.1.1", "v1.2.0-rc.1", "v1.2.0", "v1.10.0", "v1.3.0-alpha"},
 	"v2": {"v2.0.0", "v2.0.1", "v2.1.0", "v2.1.0-beta", "v2.3.4"},
 	"v3": {"v3.0.0-pre", "v3.0.0", "v3.1.0"},
+	// majors whose decimal spelling sorts before "2", between "2" and "9", and has three digits
+	"v10": {"v10.0.0", "v10.1.0", "v10.1.1-rc.1"},
+	"v12": {"v12.0.0", "v12.3.4"},
+	"v20": {"v20.0.0", "v20.1.0"},
+	"v100": {"v100.0.0", "v100.0.1"},
 }
 
 var projNames = []string{"lib", "core", "", "lib", "util", "p"}
@@ -443,14 +493,23 @@ func GenUniverse(t *rapid.T) Universe {
 		if i >= np {
 			proj = rapid.IntRange(0, np-1).Draw(t, "proj")
 		}
-		major := rapid.SampledFrom([]string{"v1", "v1", "v2", "v1", "v0", "v3", "v2"}).Draw(t, "major")
+		major := rapid.SampledFrom([]string{"v1", "v1", "v2", "v1", "v0", "v3", "v2", "v1", "v1", "v2", "v1", "v0", "v3", "v2", "v10", "v12", "v20", "v100", "v10"}).Draw(t, "major")
 		ver := rapid.SampledFrom(versionPool[major]).Draw(t, "ver")
 		key := fmt.Sprintf("%d/%s", proj, ver)
 		if used[key] {
 			continue
 		}
 		used[key] = true
-		u.Tags = append(u.Tags, Tag{Proj: proj, Version: ver, Name: rapid.SampledFrom(projNames).Draw(t, "pname")})
+		tag := Tag{Proj: proj, Version: ver, Name: rapid.SampledFrom(projNames).Draw(t, "pname")}
+		if rapid.IntRange(0, 5).Draw(t, "twotags") == 5 {
+			// a second tag of the same major on this commit
+			also := rapid.SampledFrom(versionPool[major]).Draw(t, "also")
+			if k2 := fmt.Sprintf("%d/%s", proj, also); !used[k2] {
+				used[k2] = true
+				tag.Also = also
+			}
+		}
+		u.Tags = append(u.Tags, tag)
 	}
 	for i := range u.Tags {
 		nr := rapid.SampledFrom([]int{1, 0, 2, 1, 3, 2}).Draw(t, "nreq")
